@@ -91,6 +91,14 @@ def check(op, args, res, consts=None):
         x = [v % P for v in a]
         want = ext_mul(D, x, x, w[D])
         return None if r == want else "square %s, a*a = %s" % (r, want)
+    if op in ("padd", "psub", "pmul", "pneg", "psquare"):
+        want = {"padd": lambda: a[0] + a[1], "psub": lambda: a[0] - a[1], "pmul": lambda: a[0] * a[1],
+                "pneg": lambda: -a[0], "psquare": lambda: a[0] * a[0]}[op]() % P
+        return None if r[0] == want else "packed lane result %d, specification %d" % (r[0], want)
+    if op == "pinterleave_involution":
+        return None if r[0] == 1 else "interleave is not an involution"
+    if op == "packed_width":
+        return None
     if op == "const_w":
         return None if r[0] == w[a[0]] else "W changed: binomial X^%d - %d" % (a[0], r[0])
     if op == "const_dth":
